@@ -43,6 +43,9 @@ package types
 //@   ensures [pvpresent] result != nil ==> ((h.ProveValue == nil) == (result.ProveValue == nil))
 //@   ensures [bytes]  result != nil ==> ref(result.Signature) == ref(h.Signature) && len(result.Signature) == len(h.Signature) && ref(result.Castor) == ref(h.Castor) && len(result.Castor) == len(h.Castor) && ref(result.GroupId) == ref(h.GroupId) && len(result.GroupId) == len(h.GroupId) && ref(result.Random) == ref(h.Random) && len(result.Random) == len(h.Random) && ref(result.ExtraData) == ref(h.ExtraData) && len(result.ExtraData) == len(h.ExtraData)
 //@   ensures [txcount] result != nil ==> len(result.Transactions) == len(h.Transactions)
+//@   # the two timestamps are exactly what their wire bytes decode to - zone offset included: the header hash is
+//@   # taken over a JSON form that prints the offset, so a re-zoned time is another header
+//@   ensures [times]  result != nil ==> result.CurTime == @timedec(bytes(h.CurTime)) && result.PreTime == @timedec(bytes(h.PreTime))
 //@   modifies nothing
 
 //@ func PbToBlock
